@@ -169,6 +169,29 @@ theorem lru_is_stack_prefix (cap : Nat) (cb : Bool) (c0 : RawLru κ ν) (hn : Ra
       obtain ⟨c2, h2, hi2⟩ := ih c1 _ hc1 hi1
       exact ⟨c2, by simp only [List.map_cons, runOps, h1, h2], by simp only [List.foldl_cons, hi2]⟩
 
+/-- the stack of a history of `put`s does not depend on the capacity -/
+theorem stack_puts_cap_free (cap cap' : Nat) (ps : List (κ × ν)) (D : AL κ ν) :
+    (ps.map fun e => LruStack.UseOp.put e.1 e.2).foldl (LruStack.step cap) D =
+      (ps.map fun e => LruStack.UseOp.put e.1 e.2).foldl (LruStack.step cap') D := by
+  induction ps generalizing D with
+  | nil => rfl
+  | cons e t ih => simp only [List.map_cons, List.foldl_cons, LruStack.step]; exact ih _
+
+/-- **inclusion (no Belady anomaly)**: on the same history of `put`s a smaller plain LRU holds exactly the most
+    recent part of what a larger one holds — same entries, same order, same values -/
+theorem lru_inclusion_puts (cap cap' : Nat) (hle : cap ≤ cap') (cb : Bool) (c0 c0' : RawLru κ ν)
+    (hn : RawLru.new cap cb = some c0) (hn' : RawLru.new cap' cb = some c0') (ps : List (κ × ν)) :
+    ∃ c c', runOps RawLru.step c0 (ps.map fun e => RawOp.put e.1 e.2) = .ok c ∧
+      runOps RawLru.step c0' (ps.map fun e => RawOp.put e.1 e.2) = .ok c' ∧ c.items = c'.items.take cap := by
+  obtain ⟨c, h, hi⟩ := lru_is_stack_prefix cap cb c0 hn (ps.map fun e => LruStack.UseOp.put e.1 e.2)
+  obtain ⟨c', h', hi'⟩ := lru_is_stack_prefix cap' cb c0' hn' (ps.map fun e => LruStack.UseOp.put e.1 e.2)
+  have hm : ∀ l : List (κ × ν), (l.map fun e => LruStack.UseOp.put e.1 e.2).map LruStack.UseOp.toRaw =
+      l.map fun e => RawOp.put e.1 e.2 := by
+    intro l; simp only [List.map_map]; rfl
+  rw [hm] at h h'
+  refine ⟨c, c', h, h', ?_⟩
+  rw [hi, hi', stack_puts_cap_free cap cap' ps [], List.take_take, Nat.min_eq_left hle]
+
 example : ([LruStack.UseOp.put 1 10, .put 2 20, .get 1 none, .put 3 30, .get 2 none].foldl (LruStack.step 2) ([] : AL Nat Nat)).take 2
     = [(3, 30), (1, 10)] := by decide
 end C06
